@@ -325,8 +325,20 @@ class DistBinomial(DistDiscrete):
     def probability(self, observation: int) -> float:
         """Returns the probability of the observation for the distribution."""
         if isinstance(observation, int) and 0 <= observation <= self._n:
-            return (math.comb(self._n, observation) * self._p ** observation
-                    * (1.0 - self._p) ** (self._n - observation))
+            try:
+                return (math.comb(self._n, observation) * self._p ** observation
+                        * (1.0 - self._p) ** (self._n - observation))
+            except OverflowError:
+                # the binomial coefficient exceeds the float range (so that
+                # 0 < observation < n): evaluate in log space
+                if not 0.0 < self._p < 1.0:
+                    return 0.0
+                return math.exp(math.lgamma(self._n + 1)
+                                - math.lgamma(observation + 1)
+                                - math.lgamma(self._n - observation + 1)
+                                + observation * math.log(self._p)
+                                + (self._n - observation)
+                                * math.log(1.0 - self._p))
         return 0.0;
 
     @property
@@ -888,8 +900,17 @@ class DistNegBinomial(DistDiscrete):
     def probability(self, observation: int) -> float:
         """Returns the probability of the observation for the distribution."""
         if isinstance(observation, int) and observation >= 0:
-            return (math.comb(self._s + observation - 1, observation) 
-                    * self._p ** self._s * (1.0 - self._p) ** (observation))
+            try:
+                return (math.comb(self._s + observation - 1, observation) 
+                        * self._p ** self._s * (1.0 - self._p) ** (observation))
+            except OverflowError:
+                # the binomial coefficient exceeds the float range: evaluate
+                # in log space
+                return math.exp(math.lgamma(self._s + observation)
+                                - math.lgamma(observation + 1)
+                                - math.lgamma(self._s)
+                                + self._s * math.log(self._p)
+                                + observation * math.log(1.0 - self._p))
         return 0.0;
 
     @property
@@ -1517,8 +1538,13 @@ class DistPoisson(DistDiscrete):
     def probability(self, observation: int) -> float:
         """Returns the probability of the observation for the distribution."""
         if isinstance(observation, int) and observation >= 0:
-            return (math.exp(-self._rate) * (self._rate ** observation)
-                    / math.factorial(observation))
+            try:
+                return (math.exp(-self._rate) * (self._rate ** observation)
+                        / math.factorial(observation))
+            except OverflowError:
+                # rate ** k or k! exceeds the float range: evaluate in log space
+                return math.exp(observation * math.log(self._rate)
+                                - self._rate - math.lgamma(observation + 1))
         return 0.0;
 
     @property
